@@ -6,7 +6,15 @@
 
 //! Each variable, expression and return value has a [ValueType].
 
-pub trait Identifier: Clone + PartialEq {}
+pub trait Identifier: Clone + PartialEq
+{
+	/// Whether the scoper has resolved this identifier. The rebuilder only
+	/// adds extra-syntactical markers to resolved identifiers.
+	fn is_resolved(&self) -> bool
+	{
+		true
+	}
+}
 
 impl Identifier for String {}
 
